@@ -671,7 +671,7 @@ fn gen11(seed: u64) -> WorldCase {
 pub fn c11_enumerated() -> u64 {
     (C11_FAMILIES * C11_VARIANTS) as u64
 }
-const C11_FAMILIES: usize = 8;
+const C11_FAMILIES: usize = 9;
 const C11_VARIANTS: usize = 12;
 
 fn gen11_enumerated(k: u64, seed: u64) -> WorldCase {
@@ -817,6 +817,24 @@ fn gen11_enumerated(k: u64, seed: u64) -> WorldCase {
             }
             ops.push(Op { t: 0, k: OpK::CloneB { from: 0, to: 1 } });
             exec(&mut ops, &mut r, 0, "p1", 1, 1);
+        }
+        8 => {
+            // the caller binds a function under a built-in's name: whatever that does to a
+            // call with constant arguments, it does not depend on when the program was added
+            label = "rebound-builtin";
+            let (fname, text) = [("toUpper", "'abc'.toUpper()"), ("size", "size('abc')"), ("contains", "'abc'.contains('b')"), ("max", "max(1, 2)")][var % 4];
+            add(&mut ops, 0, "p0", text);
+            add(&mut ops, 0, "p2", &format!("[{}, x0]", text));
+            bind(&mut ops, 0, "x0", V::Int(1));
+            exec(&mut ops, &mut r, 0, "p0", 0, 1);
+            ops.push(Op { t: 0, k: OpK::NewB { b: 1 } });
+            bind(&mut ops, 1, "x0", V::Int(2));
+            ops.push(Op { t: 0, k: OpK::BindFunc { b: 1, name: fname.to_string(), ret: V::s("caller's function") } });
+            exec(&mut ops, &mut r, 0, "p0", 1, 1);
+            add(&mut ops, 0, "p1", text);
+            for (n, b) in [("p1", 1usize), ("p0", 1), ("p2", 1), ("p1", 0), ("p0", 0)] {
+                exec(&mut ops, &mut r, 0, n, b, 1);
+            }
         }
         _ => {
             // a Program compiled once and placed in two contexts, executed with different
